@@ -313,6 +313,103 @@ def Loader.exec (perm : Nat → List Nat) :
     (r.1 :: rest.1, rest.2)
   | .setEpoch e :: ops, l => Loader.exec perm ops (l.setEpoch e)
 
+/-! ## Several loops over one loader at once, `len()` and look-ups in between
+
+`it = iter(loader)` builds a `_SingleProcessDataLoaderIter` around the batch sampler's GENERATOR,
+which has not run yet: the epoch sampler is asked for its samples (and bumps `sampler.epoch`) when
+the FIRST batch is requested. From then on the iterator reads from its own `iter(permutation)`:
+in the model it is a value - the batches the pass had when it started - and a cursor.
+`len(loader)` and `sampler.get_samples_for_epoch(e)` build their own permutation and leave nothing
+behind. (Worker processes pre-fetch at `iter(loader)`; this is the `num_workers = 0` behaviour.) -/
+
+/-- What a started pass is: the result `Loader.serve` computed when it started. -/
+abbrev PassVal := Except Err (List (List Nat) × Option Err)
+
+/-- `next(it)` for a pass with value `v` of which `j` batches were handed out already: the next
+batch, `none` = `StopIteration` (also on every later call: the generator is dead), an exception
+where the batch sampler's generator raised it. -/
+def nextOf (v : PassVal) (j : Nat) : Except Err (Option (List Nat)) :=
+  match v with
+  | .error e => .error e
+  | .ok (bs, err) =>
+    match bs[j]? with
+    | some b => .ok (some b)
+    | none =>
+      match err with
+      | some e => if j = bs.length then .error e else .ok none
+      | none => .ok none
+
+/-- An `iter(loader)` object: `value = none` until its first batch is requested. -/
+structure LiveIter where
+  value : Option PassVal
+  pos : Nat
+
+/-- A loader and the iterators created from it so far (`it_0, it_1, ..` in creation order). -/
+structure Session where
+  loader : Loader
+  iters : List LiveIter
+
+def Session.new (l : Loader) : Session := ⟨l, []⟩
+
+/-- What a script does with the loader object. -/
+inductive IOp where
+  | serve                -- `for batch in loader: ..` with nothing in between
+  | setEpoch (e : Nat)   -- `loader.epoch = e`
+  | newIter              -- `it_k = iter(loader)`, `k` = number of iterators created before
+  | next (k : Nat)       -- `next(it_k)`
+  | len                  -- `len(loader)`
+  | peek (e : Nat)       -- `list(loader.batch_sampler.sampler.get_samples_for_epoch(e))`
+  deriving Repr, DecidableEq
+
+/-- What the script sees. -/
+inductive Out where
+  | pass (r : PassVal)
+  | unit
+  | batch (b : Except Err (Option (List Nat)))
+  | len (n : Except Err Nat)
+  | samples (xs : List Nat)
+  | noIter               -- `next` on an iterator the script never created
+
+/-- One operation. Only `serve`, `setEpoch` and the FIRST `next` of an iterator touch the loader
+(its sampler's epoch counter); a `next` only touches its own iterator. -/
+def Session.step (perm : Nat → List Nat) (op : IOp) (s : Session) : Out × Session :=
+  match op with
+  | .serve =>
+    let r := s.loader.serve perm
+    (.pass r.1, { s with loader := r.2 })
+  | .setEpoch e => (.unit, { s with loader := s.loader.setEpoch e })
+  | .newIter => (.unit, { s with iters := s.iters ++ [⟨none, 0⟩] })
+  | .len => (.len (s.loader.len perm), s)
+  | .peek e => (.samples (EpochSampler.samples s.loader.sampler.cfg (perm e)), s)
+  | .next k =>
+    match s.iters[k]? with
+    | none => (.noIter, s)
+    | some ⟨none, _⟩ =>
+      let r := s.loader.serve perm
+      (.batch (nextOf r.1 0), ⟨r.2, s.iters.set k ⟨some r.1, 1⟩⟩)
+    | some ⟨some v, j⟩ => (.batch (nextOf v j), { s with iters := s.iters.set k ⟨some v, j + 1⟩ })
+
+/-- Run a script; returns every operation with what it showed, and the final state. -/
+def Session.exec (perm : Nat → List Nat) : List IOp → Session → List (IOp × Out) × Session
+  | [], s => ([], s)
+  | op :: ops, s =>
+    let r := Session.step perm op s
+    let rest := Session.exec perm ops r.2
+    ((op, r.1) :: rest.1, rest.2)
+
+/-- What `next(it_k)` returned, call by call. -/
+def deliveredBy (k : Nat) (tr : List (IOp × Out)) : List Out :=
+  tr.filterMap (fun p => if p.1 = IOp.next k then some p.2 else none)
+
+/-- A script of full passes and epoch assignments only (the `Op` language of `Loader.exec`). -/
+def IOp.ofOp : Op → IOp
+  | .serve => .serve
+  | .setEpoch e => .setEpoch e
+
+/-- What the full passes of a script delivered. -/
+def passesOf (tr : List (IOp × Out)) : List PassVal :=
+  tr.filterMap (fun p => match p.2 with | .pass r => some r | _ => none)
+
 /-! ## Collation -/
 
 /-- Insert before the first element whose key is not strictly larger: a stable descending
